@@ -52,7 +52,7 @@ BLACKLIST = {204: {'content-type'},
                    'content-md5', 'last-modified'}}
 DICT_OPS = ['setitem', 'append', 'setdefault']
 ATTR_OPS = ['content_type', 'content_length', 'expires']
-CTOR_OPS = ['ctor_dict', 'ctor_list', 'ctor_kw', 'error_kw']
+CTOR_OPS = ['ctor_dict', 'ctor_list', 'ctor_kw', 'error_kw', 'ctor_both']      # ctor_both: the name is in `headers` AND given as a keyword
 
 
 def strings(n):
@@ -133,6 +133,8 @@ def run_program(om, prog, status, via):
                     r = om.HTTPResponse('', status, headers=[(name, v)])
                 elif op == 'ctor_kw':
                     r = om.HTTPResponse('', status, **{name: v})
+                elif op == 'ctor_both':
+                    r = om.HTTPResponse('', status, headers={name: 'base'}, **{name: v})
                 else:
                     r = om.HTTPError(status, '', **{name: v})
                 raised.append(False)
@@ -146,9 +148,22 @@ def run_program(om, prog, status, via):
         for op, name, v in rest:
             raised.append(apply_real(r, op, name, v))
         try:
-            return raised, list(r.headerlist), None
+            hl = list(r.headerlist)
         except Exception as e:   # noqa
             return raised, None, f'headerlist raised {type(e).__name__}: {e}'
+        # a copy of the response (what redirect() answers with) emits the same list
+        try:
+            cp = r.copy(cls=om.HTTPResponse)
+        except Exception:   # noqa  (copy() of a response with a multi-valued header raises TypeError: observed, not judged)
+            cp = None
+        if cp is not None:
+            try:
+                hl2 = list(cp.headerlist)
+            except Exception as e:   # noqa
+                return raised, None, f'headerlist of response.copy() raised {type(e).__name__}: {e}'
+            if hl2 != hl:
+                return raised, None, f'response.copy() emits {hl2!r}, the response itself {hl!r}'
+        return raised, hl, None
     # via WSGI on the thread-local Response
     app = om.Ombott()
 
@@ -192,7 +207,9 @@ def judge(om, prog, status, via):
     m = Model()
     exp_raise = []
     for op, name, v in prog:
-        mop = {'ctor_dict': 'append', 'ctor_list': 'append', 'ctor_kw': 'append', 'error_kw': 'append'}.get(op, op)
+        if op == 'ctor_both':
+            m.apply('append', name, 'base')          # the entry of `headers` comes first, the keyword value is a further value
+        mop = {'ctor_dict': 'append', 'ctor_list': 'append', 'ctor_kw': 'append', 'error_kw': 'append', 'ctor_both': 'append'}.get(op, op)
         exp_raise.append(not m.apply(mop, name, v))
         if exp_raise[-1] and op in CTOR_OPS:
             break
@@ -292,7 +309,7 @@ def shards(tier, seed):
     n = 3 if tier == 'quick' else 4
     out = []
     for op in DICT_OPS + CTOR_OPS:
-        for name in NAMES:
+        for name in (NAMES if op != 'ctor_both' else ['Allow', 'Location', 'Etag']):      # (keyword names are identifiers)
             out.append(('single', op, name, n, 'base'))
     for op in ATTR_OPS:
         out.append(('single', op, None, n, 'base'))
